@@ -210,8 +210,63 @@ Definition nth_judge2 (c : Z * Z * Z * bool) : nat :=
   let '(a, b, i, out) := c in
   ((if Bool.eqb (nth_test a b i) out then 0 else 1) + (if Bool.eqb (nth_spec_b a b i) out then 0 else 2))%nat.
 
+(* decidable rendition of match_spec, written from the selector's meaning (bounded search for the :nth clause,
+   never calling nth_test); proofs/C14_page.v: match_spec_b_correct *)
+Definition match_spec_b (sel : selector) (pt : page_type) : bool :=
+  match s_side sel with Some s => side_eqb s (pt_side pt) | None => true end &&
+  match s_blank sel with Some b => Bool.eqb b (pt_blank pt) | None => true end &&
+  match s_first sel with Some f => Bool.eqb f (pt_index pt =? 0) | None => true end &&
+  match s_name sel with Some n => String.eqb n (pt_name pt) | None => true end &&
+  match s_index sel with
+  | None => true
+  | Some (a, b, None) => nth_spec_b a b (pt_index pt)
+  | Some (a, b, Some g) =>
+      String.eqb g (pt_name pt) &&
+      existsb (fun gi => String.eqb g (fst gi) && nth_spec_b a b (snd gi)) (pt_groups pt)
+  end.
+
+(* bit 0: model <> implementation; bit 1: the implementation's answer contradicts the specification *)
 Definition match_judge (c : selector * page_type * bool) : nat :=
-  let '(sel, pt, out) := c in if Bool.eqb (page_type_match sel pt) out then 0%nat else 1%nat.
+  let '(sel, pt, out) := c in
+  ((if Bool.eqb (page_type_match sel pt) out then 0 else 1) + (if Bool.eqb (match_spec_b sel pt) out then 0 else 2))%nat.
+
+(* groups-render: the @page :nth(a n + b of name) rules of the document in source order with the margin-top
+   each one sets, the margin-top of `@page name` rules (name, value), the default; for one page: its name and its
+   1-based position in its page group as css-gcpm defines it (computed by the harness from the document, not
+   from the implementation's page type), the page type the implementation built, and the used margin-top.
+   bit 0: cascade model on the implementation's page type <> used value; bit 1: used value <> what the
+   selectors' meaning gives (last matching :nth rule, else the named rule, else the default) *)
+Definition group_rule := (Z * Z * string * Z)%type.
+Fixpoint last_match (rules : list group_rule) (name : string) (pos : option Z) (acc : option Z) : option Z :=
+  match rules with
+  | [] => acc
+  | (a, b, g, v) :: r =>
+      let m := match pos with
+               | Some p => String.eqb g name && nth_spec_b a b (p - 1)
+               | None => false
+               end in
+      last_match r name pos (if m then Some v else acc)
+  end.
+Definition groups_expected (rules : list group_rule) (named : list (string * Z)) (default : Z)
+           (name : string) (pos : option Z) : Z :=
+  match last_match rules name pos None with
+  | Some v => v
+  | None => match find (fun nv => String.eqb (fst nv) name) named with Some (_, v) => v | None => default end
+  end.
+Fixpoint last_match_model (rules : list group_rule) (pt : page_type) (acc : option Z) : option Z :=
+  match rules with
+  | [] => acc
+  | (a, b, g, v) :: r =>
+      last_match_model r pt (if page_type_match (mkSel None None None (Some (a, b, Some g)) None) pt then Some v else acc)
+  end.
+Definition groups_judge
+  (c : list group_rule * list (string * Z) * Z * (string * option Z) * page_type * Z) : nat :=
+  let '(rules, named, default, (name, pos), pt, out) := c in
+  let m := match last_match_model rules pt None with
+           | Some v => v
+           | None => match find (fun nv => String.eqb (fst nv) (pt_name pt)) named with Some (_, v) => v | None => default end
+           end in
+  ((if Z.eqb m out then 0 else 1) + (if Z.eqb (groups_expected rules named default name pos) out then 0 else 2))%nat.
 
 Definition osel_eqb (x y : option side) : bool :=
   match x, y with None, None => true | Some a, Some b => side_eqb a b | _, _ => false end.
